@@ -129,7 +129,10 @@ Definition overlay (h : list byte) (o : nat) (d : list byte) : list byte :=
 (** WriteAt on the region: a negative offset is an error (nothing written); bytes beyond the region are
     outside the model *)
 Definition pwrite_region (h : list byte) (off : Z) (d : list byte) : list byte :=
-  if (off <? 0)%Z then h else overlay h (Z.to_nat off) d.
+  if (off <? 0)%Z then h
+  else if (Z.of_nat (length h) <=? off)%Z then h     (* entirely beyond the region (also keeps Z.to_nat of a
+                                                        multi-megabyte offset out of the evaluation) *)
+  else overlay h (Z.to_nat off) d.
 
 Definition apply_write (reclen : Z) (h : list byte) (w : wop) : list byte :=
   match w with
